@@ -536,11 +536,16 @@ def run_check(check_name, tier, seed=None, nruns=None):
     known = load_known()
     exit_code = 0
     reported = []
+    confirms = 0
     for m in mins:
         if "error" in m:
             harness_errors.append("run %d: %s" % (m["idx"], m["error"]))
             continue
         mrun, mres = m["run"], m["res"]
+        if confirms >= getattr(check, "max_confirm", 99):
+            print("NOTE %s run %d: further failure of oracle %s not confirmed (confirmation budget used); replay not written" % (check.prop, m["idx"], mres["tag"]), flush=True)
+            continue
+        confirms += 1
         ok, note = check.confirm(mrun, mres)
         if not ok:
             print("NOTE %s run %d: failure not confirmed: %s" % (check.prop, m["idx"], note), flush=True)
